@@ -429,4 +429,88 @@ theorem outOfBool_eq_ite (b : Bool) : outOfBool b = if b then .ok else .err := r
 theorem spec_reset_cur (s : SyncSpec) (slot : UInt64) : (s.reset slot).cur = slot := by
   unfold SyncSpec.reset; split <;> rfl
 
+/-! ## an exact duplicate is absorbed -/
+
+theorem specAddAgg_nil {log : AttSpec} {a : Att} {c : List Nat} (haf : aggsFor log a.data = []) :
+    specAddAgg log a c =
+      if (participants a.bits c).any (fun v => !votedAgg log v a.data.target) then
+        (log ++ [.agg a.data a.bits a.sig c], true)
+      else (log, false) := by
+  unfold specAddAgg; rw [haf]
+
+theorem specAddAgg_cons {log : AttSpec} {a : Att} {c : List Nat} {first : Agg} {rest : List Agg}
+    (haf : aggsFor log a.data = first :: rest) :
+    specAddAgg log a c =
+      match covers (unionBits first.bits rest) a.bits with
+      | .ok true => (log, true)
+      | .ok false => (log ++ [.agg a.data a.bits a.sig c], true)
+      | _ => (log, false) := by
+  unfold specAddAgg; rw [haf]; rfl
+
+/-- adding an accepted attestation once more is answered `ok` and changes nothing -/
+theorem spec_add_idem {log : AttSpec} {a : Att} {c : List Nat} (hok : (Spec.add log a c).2 = true) :
+    Spec.add (Spec.add log a c).1 a c = ((Spec.add log a c).1, true) := by
+  by_cases h0 : onesCount a.bits = 0
+  · rw [spec_add_eq, if_pos h0] at hok; cases hok
+  by_cases h1 : onesCount a.bits = 1
+  · -- individual attestation
+    rw [spec_add_eq, if_neg h0, if_pos h1] at hok
+    rcases singleParticipant_cases a.bits c with ⟨v, hv⟩ | hv
+    · have hvote := spec_single_accepted h1 hv (by rw [spec_add_eq, if_neg h0, if_pos h1]; exact hok)
+      generalize (Spec.add log a c).1 = log' at hvote ⊢
+      rw [spec_add_eq, if_neg h0, if_pos h1]
+      unfold specAddSingle
+      rw [hv]; dsimp only
+      rw [hvote]; simp
+    · unfold specAddSingle at hok; rw [hv] at hok; cases hok
+  · rw [spec_add_eq, if_neg h0, if_neg h1] at hok
+    by_cases hl : bitlistLen a.bits = c.length
+    · rw [if_neg (by simpa using hl)] at hok
+      have hform : ∀ log', Spec.add log' a c = specAddAgg log' a c := by
+        intro log'; rw [spec_add_eq, if_neg h0, if_neg h1, if_neg (by simpa using hl)]
+      cases haf : aggsFor log a.data with
+      | nil =>
+        rw [specAddAgg_nil haf] at hok
+        split at hok
+        · -- the first aggregate of this data: afterwards it covers itself
+          rename_i hany
+          have hadd : Spec.add log a c = (log ++ [.agg a.data a.bits a.sig c], true) := by
+            rw [hform, specAddAgg_nil haf, if_pos hany]
+          rw [hadd]; dsimp only
+          have haf' : aggsFor (log ++ [.agg a.data a.bits a.sig c]) a.data = [⟨a.bits, a.sig⟩] := by
+            rw [aggsFor_append_agg, if_pos rfl, haf]; rfl
+          rw [hform, specAddAgg_cons haf']
+          have : unionBits a.bits [] = a.bits := rfl
+          rw [this, covers_self]
+        · cases hok
+      | cons first rest =>
+        rw [specAddAgg_cons haf] at hok
+        rcases covers_cases (unionBits first.bits rest) a.bits with ⟨r, hr, _⟩ | hr
+        · rw [hr] at hok
+          cases r with
+          | true =>
+            have hadd : Spec.add log a c = (log, true) := by rw [hform, specAddAgg_cons haf, hr]
+            rw [hadd]; exact hadd
+          | false =>
+            -- appended: the OR of the participants now covers it
+            have hadd : Spec.add log a c = (log ++ [.agg a.data a.bits a.sig c], true) := by
+              rw [hform, specAddAgg_cons haf, hr]
+            rw [hadd]; dsimp only
+            have haf' : aggsFor (log ++ [.agg a.data a.bits a.sig c]) a.data =
+                first :: (rest ++ [⟨a.bits, a.sig⟩]) := by
+              rw [aggsFor_append_agg, if_pos rfl, haf]; rfl
+            rw [hform, specAddAgg_cons haf']
+            obtain ⟨hb, hlen⟩ := covers_ok_lens hr
+            have hu : unionBits first.bits (rest ++ [⟨a.bits, a.sig⟩]) =
+                (unionBits first.bits rest).zipWith (· ||| ·) a.bits := by
+              have hor : Pool.or (unionBits first.bits rest) a.bits =
+                  .ok ((unionBits first.bits rest).zipWith (· ||| ·) a.bits) := by simp [Pool.or, hlen]
+              have h3 := unionAll_append_singleton (first :: rest) (by simp) ⟨a.bits, a.sig⟩
+              change unionBits first.bits (rest ++ [_]) =
+                match Pool.or (unionBits first.bits rest) a.bits with | .ok r => r | _ => _ at h3
+              rw [hor] at h3; exact h3
+            rw [hu, covers_or_self _ _ hb hlen]
+        · rw [hr] at hok; cases hok
+    · rw [if_pos hl] at hok; cases hok
+
 end Zrnt.Pool
